@@ -60,6 +60,10 @@ type C11Case struct {
 	BadChild  int  `json:"bad_child"`
 	GoodChild int  `json:"good_child"`
 	Outline   bool `json:"outline,omitempty"`
+	// AltTip > 0: block index of the tip of the branch a "blocks/other-branch"
+	// liar answers from (default: the valid child of the honest tip when the
+	// liar claims the honest chain, else the honest chain).
+	AltTip int `json:"alt_tip,omitempty"`
 }
 
 // headerSafeCorruptions keep the block's header valid (the lie is in the body
@@ -224,7 +228,15 @@ func nodeAt(tr *kit.Tree, idx int) *kit.TNode {
 	return tr.Nodes[idx]
 }
 
-func runC11(c C11Case, cs *kit.CaseStats) error {
+// c11Info reports what a case reached (for the enumerated stage).
+type c11Info struct {
+	Delivered []bool // per Byzantine peer: its lie went out and differed from the honest payload
+	Quiescent bool
+}
+
+func runC11(c C11Case, cs *kit.CaseStats) error { return runC11x(c, cs, nil) }
+
+func runC11x(c C11Case, cs *kit.CaseStats, info *c11Info) error {
 	tr := kit.BuildTree(c.Tree)
 	req := tr.Network.HardforkV2.RequireHeight
 	allow := tr.Network.HardforkV2.AllowHeight
@@ -281,6 +293,9 @@ func runC11(c C11Case, cs *kit.CaseStats) error {
 				bp.Alt = p2px.ChainTo(tr, g)
 			}
 		}
+		if a := nodeAt(tr, c.AltTip); c.AltTip > 0 && a != nil {
+			bp.Alt = p2px.ChainTo(tr, a)
+		}
 		byz = append(byz, bp)
 	}
 
@@ -330,8 +345,13 @@ func runC11(c C11Case, cs *kit.CaseStats) error {
 				return nil
 			}
 			// whatever the peers said, a "successful" checkpoint is the true one
-			if blk.ID() != cp.ID || !bytes.Equal(refl.Enc(types.V2Block(blk)), refl.Enc(types.V2Block(cp.Block))) {
-				return fmt.Errorf("RetrieveCheckpoint(%v) returned block %v, which is not the block of the chain", cp.Index(), blk.ID())
+			if blk.ID() != cp.ID {
+				return fmt.Errorf("RetrieveCheckpoint(%v) returned block %v, which is not the requested block", cp.Index(), blk.ID())
+			} else if !bytes.Equal(refl.Enc(types.V2Block(blk)), refl.Enc(types.V2Block(cp.Block))) {
+				// same id, other content: a v2 id binds parent state, miner address
+				// and transactions only - what core says about the rest decides
+				verdict := consensus.ValidateBlock(cp.Parent.Ledger.State, blk, consensus.V1BlockSupplement{Transactions: make([]consensus.V1TransactionSupplement, len(blk.Transactions))})
+				return fmt.Errorf("RetrieveCheckpoint(%v) accepted a checkpoint block that carries the requested id but is not the block of the chain (payouts %v, v2 height %d; the chain's block: payouts %v, v2 height %d); consensus.ValidateBlock on its parent state: %v", cp.Index(), blk.MinerPayouts, blk.V2.Height, cp.Block.MinerPayouts, cp.Block.V2.Height, verdict)
 			}
 			if !bytes.Equal(refl.StateBytes(st), refl.StateBytes(cp.Parent.Ledger.State)) {
 				return fmt.Errorf("RetrieveCheckpoint(%v) returned a parent state that differs from the true state before that block (index %v)", cp.Index(), st.Index)
@@ -703,6 +723,10 @@ func runC11(c C11Case, cs *kit.CaseStats) error {
 			cs.NonTrivial()
 			cs.Class("lie-delivered:" + key)
 		}
+		if info != nil {
+			info.Delivered = append(info.Delivered, delivered)
+			info.Quiescent = quiescent
+		}
 		bt := nodeAt(tr, c.Byz[i].Tip)
 		if bt != nil && !bt.Valid() && b.Seen("blocks") > 0 {
 			cs.NonTrivial()
@@ -829,6 +853,13 @@ func runC11(c C11Case, cs *kit.CaseStats) error {
 		// answers block requests from that branch)
 		if g := nodeAt(tr, c.GoodChild); g != nil && g.Valid() && bs.Tip == c.Honest && byz[i].Corr.RPC == "blocks" && byz[i].Corr.Kind == "other-branch" {
 			others = append(others, g.Ledger.State)
+		}
+		if byz[i].Corr.RPC == "blocks" && byz[i].Corr.Kind == "other-branch" && c.AltTip > 0 {
+			for a := nodeAt(tr, c.AltTip); a != nil && a.Idx >= 0; a = a.Parent {
+				if a.Valid() && !a.IsAncestorOf(H) {
+					others = append(others, a.Ledger.State)
+				}
+			}
 		}
 	}
 	for _, o := range others {
